@@ -10,12 +10,7 @@ import os
 
 from .core import VERIF
 
-NA_REASONS = {
-    "C08": "not applicable to static analysis: the property is about the value a tokenizer (re.finditer over configurable "
-           "symbol tables and two CSV data files) returns for every name over every alphabet; no rule over the shape of "
-           "_parse_molecule_name is a necessary condition of it without being a frozen copy of its statements. The two "
-           "structural facts about symbol tables are decided under C09 (R1, R3). See DESIGN.md section 6.",
-}
+NA_REASONS = {}
 
 ENGINES = [
     {"name": "pymodel", "path": "sa/pymodel.py", "kind_free_text": "package model: classes, C3 MRO, method resolution, class-level literals (ast)"},
@@ -23,6 +18,9 @@ ENGINES = [
     {"name": "calg", "path": "sa/calg.py", "kind_free_text": "C expression parser and canonical algebra over positive reals (equivalence of rate laws / terms)"},
     {"name": "jmodel", "path": "sa/jmodel.py", "kind_free_text": "Jinja template model from jinja2's parser: includes resolved, {% if %} specialised per configuration"},
     {"name": "cskel", "path": "sa/cskel.py", "kind_free_text": "C++ skeleton of a specialised template, split into functions by brace matching"},
+    {"name": "normalize", "path": "sa/normalize.py", "kind_free_text": "behaviour-preserving AST normalisations applied at parse time: static-loop unrolling, local-def / helper inlining (so that rules do not depend on which equivalent spelling the source uses)"},
+    {"name": "multiplicity", "path": "sa/multiplicity.py", "kind_free_text": "lint shared by C01/C02/C04/C05/C11/C13: sets / dicts keyed by reactant species in term-building code"},
+    {"name": "patchapply", "path": "sa/patchapply.py", "kind_free_text": "in-memory application of stored unified diffs (seeded / benign corpora) as overlays of the parsed tree, thorough tier"},
     {"name": "odemodel", "path": "sa/odemodel.py", "kind_free_text": "normal form (row, col, sign, coefficient, product-over-list) of every store into rhs[]/jacrhs[] of _prepare_ode_content"},
 ]
 
